@@ -111,6 +111,7 @@ class Program:
         self.classes: dict[str, Unit] = {}
         self.touched: set[str] = set()  # units a rule asked for by name
         self.by_qual: dict[tuple, Unit] = {}  # (module, qualified name in the code) -> unit, whatever name the rules know it under
+        self._ref_index = None
         self.role_aliases: dict[str, str] = {}  # role name used by the rules -> where the code has the function now
         self._load()
 
@@ -184,20 +185,30 @@ class Program:
         """Units of the package that call ``unit`` (a nested function, method or module-level function): calls that resolve to it, plus - to stay
         on the safe side - any call `<x>.<name>(..)` on a receiver that cannot be resolved."""
         name = unit.node.name
+        if self._ref_index is None:
+            # name -> [(unit, reference expression, it is the callee of the call)] over the whole package, built once
+            idx = {}
+            seen_nodes = set()
+            for u in list(self.units.values()):
+                if not isinstance(u.node, (ast.FunctionDef, ast.AsyncFunctionDef)) or id(u.node) in seen_nodes:
+                    continue
+                seen_nodes.add(id(u.node))
+                for n in body_walk(u.node):
+                    if isinstance(n, ast.Call):
+                        refs = [n.func] + [a for a in n.args if isinstance(a, (ast.Name, ast.Attribute))] + [k.value for k in n.keywords if isinstance(k.value, (ast.Name, ast.Attribute))]
+                        for f in refs:
+                            nm = f.id if isinstance(f, ast.Name) else (f.attr if isinstance(f, ast.Attribute) else None)
+                            if nm is not None:
+                                idx.setdefault(nm, []).append((u, f, f is n.func))
+            self._ref_index = idx
         out = []
-        for u in list(self.units.values()):
-            if not isinstance(u.node, (ast.FunctionDef, ast.AsyncFunctionDef)) or u is unit:
+        for u, f, is_callee in self._ref_index.get(name, ()):
+            if u is unit:
                 continue
-            for n in body_walk(u.node):
-                refs = []
-                if isinstance(n, ast.Call):
-                    refs = [n.func] + [a for a in n.args if isinstance(a, (ast.Name, ast.Attribute))] + [k.value for k in n.keywords if isinstance(k.value, (ast.Name, ast.Attribute))]
-                for f in refs:
-                    if (isinstance(f, ast.Name) and f.id == name) or (isinstance(f, ast.Attribute) and f.attr == name):
-                        r = self.resolve_callable(u, f)
-                        if r is unit or (r is None and isinstance(f, ast.Attribute) and f is n.func):
-                            if u not in out:
-                                out.append(u)
+            r = self.resolve_callable(u, f)
+            if r is unit or (r is None and isinstance(f, ast.Attribute) and is_callee):
+                if u not in out:
+                    out.append(u)
         return out
 
     def only_reached_from(self, uid, allowed, depth=4):
@@ -462,17 +473,18 @@ def deref_local(fn, expr, depth=3):
 def expand_locals(fn, expr, depth=3):
     """A copy of ``expr`` in which every local of ``fn`` that is bound exactly once (a sub-expression that was given a name) is replaced by
     what it was bound to: `eval_func.global_ctx` after `eval_func = self.eval_func` reads `self.eval_func.global_ctx`."""
-    import copy
+    def fresh(e):
+        return ast.parse(ast.unparse(e), mode="eval").body  # (a copy without the parent links of the program tree)
 
     class T(ast.NodeTransformer):
         def visit_Name(self, node):
             if isinstance(node.ctx, ast.Load):
                 v = deref_local(fn, node, depth=1)
                 if v is not node:
-                    return copy.deepcopy(v)
+                    return fresh(v)
             return node
 
-    out = copy.deepcopy(expr)
+    out = fresh(expr)
     for _ in range(depth):
         before = ast.dump(out)
         out = T().visit(ast.Expression(body=out)).body
